@@ -26,8 +26,10 @@ EXPRESSIBLE = {
     'diamond': {'java', 'kotlin', 'groovy', 'scala'},
     'final': {'java', 'kotlin', 'groovy', 'scala'},
     'type_argument': {'java', 'kotlin', 'groovy', 'scala'},
+    'override': {'kotlin', 'scala'},        # java and groovy print no override marker
+    'open': {'kotlin', 'scala'},            # kotlin: open, scala: final on the members of a class
 }
-KINDS = ['var_type', 'ret_type', 'diamond', 'final', 'type_argument']
+KINDS = ['var_type', 'ret_type', 'diamond', 'final', 'type_argument', 'override', 'open']
 
 
 def strip_literals(text):
@@ -207,6 +209,11 @@ def h_fidelity(eng, tier, lang):
     elif kind == 'type_argument':
         # an explicit type argument of an instantiation is replaced in place (what TypeOverwriting does)
         sites = [n for n in instantiations(q) if isinstance(n, ast.New) and not n.class_type.can_infer_type_args]
+    elif kind in ('override', 'open'):
+        # the override / overridability modifier of a member of a class
+        sites = [n for n in all_nodes(q) if isinstance(n, ast.FieldDeclaration) or
+                 (isinstance(n, ast.FunctionDeclaration) and n.func_type == ast.FunctionDeclaration.CLASS_METHOD
+                  and (kind == 'override' or n.body is not None))]
     else:
         # java and groovy never print explicit type arguments of generic method calls
         sites = [n for n in instantiations(q) if isinstance(n, ast.New) or lang in ('kotlin', 'scala')]
@@ -233,6 +240,14 @@ def h_fidelity(eng, tier, lang):
         else:
             carried_before = not d.can_infer_type_args
             d.can_infer_type_args = carried_before
+    elif kind == 'override':
+        carried_before = bool(d.override)
+        d.override = not d.override
+    elif kind == 'open':
+        if isinstance(d, ast.FieldDeclaration):
+            d.can_override = not d.can_override
+        else:
+            d.is_final = not d.is_final
     elif kind == 'type_argument':
         f = p0.bt_factory
         old = d.class_type.type_args[0]
@@ -257,6 +272,14 @@ def h_fidelity(eng, tier, lang):
     case.update(removed_lines=minus[:3], added_lines=plus[:3])
     obs.append(Ob('toggle-visible|%s|%s' % (kind, lang), base != other, case))
     if base != other:
+        if kind in ('override', 'open'):
+            # exactly the line that declares the member changes; an override marker is printed iff the program carries it
+            ok = len(minus) == 1 and len(plus) == 1 and has_token(minus[0], name) and has_token(plus[0], name)
+            obs.append(Ob('toggle-local|%s|%s' % (kind, lang), ok, case))
+            if ok and kind == 'override':
+                w_line, wo_line = (minus[0], plus[0]) if carried_before else (plus[0], minus[0])
+                obs.append(Ob('override-marker-printed-iff-carried|%s' % lang, has_token(w_line, 'override') and
+                              not has_token(wo_line, 'override'), case))
         if kind in ('var_type', 'final'):
             # the change starts at the declaration (continuation lines of its initialiser may change too:
             # numeric literals are cast when no type is declared)
@@ -300,10 +323,11 @@ def jobs(tier):
     for lang in F.LANGS:
         out.append(Job('fidelity-%s' % lang, h_fidelity, dict(tier=tier, lang=lang), split_depth=2, functions=funcs(),
                        require_events=['inventory', 'perturbed:final', 'perturbed:diamond'] +
-                       (['perturbed:var_type'] if lang in EXPRESSIBLE['var_type'] else []),
+                       (['perturbed:var_type'] if lang in EXPRESSIBLE['var_type'] else []) +
+                       (['perturbed:override', 'perturbed:open'] if lang in EXPRESSIBLE['override'] else []),
                        budget_s=2400, crosscheck_every=100, setup=lambda t=tier: members(t),
                        bounds='every family member (41 fixtures + %d generated programs per language) x perturbation kind '
-                              '{declared variable type, declared return type, diamond flag, finality} x every site of that kind'
+                              '{declared variable type, declared return type, diamond flag, finality, type argument, override marker, overridability} x every site of that kind'
                               % (2 if tier == 'quick' else 5), outside=OUT))
     return out
 
